@@ -280,6 +280,10 @@ def case_json(case):
     return c04.case_json(case)
 
 
+# a failing step is rolled back (the position stays on the failing operation): the listing / marker claims hold after it too
+FAILED_STEP_DOMAIN = True
+
+
 def check_session(case, ctx):
     sess, hist = case
     lines, what, scripts = expected_listing(sess, None)
@@ -324,7 +328,9 @@ def check_session(case, ctx):
         if k > 0 and g['log'][k - 1]['c'] == 's' and not g['log'][k - 1]['acc'] and not dumps[k - 1]['done']:
             failed_step = True
         if failed_step:
-            break          # after a failing step the position is unspecified (outside the property's domain)
+            ctx.count('position-after-a-failed-step')
+            if not FAILED_STEP_DOMAIN:
+                break
         # the interactive stack / altstack / vfexec commands tell the same story as the state the harness replay reaches
         st_main, st_alt, st_vf = stacks[k]
         if d['tce'] == 0:
